@@ -106,7 +106,7 @@ package keygen
 //@ func (*round4).StoreMessage
 //@   nopanic[C05]
 //@   requires k4ok(r) && typeis(msg.Content, *message4) && msg.Content.(*message4) != nil
-//@   requires r.PaillierSecret.PublicKey != nil && pkok(r.PaillierSecret.PublicKey) && pkvals(r.PaillierSecret.PublicKey) && r.PaillierSecret.phi != nil && r.PaillierSecret.phiInv != nil
+//@   requires paillier.skwf(r.PaillierSecret)
 //@   requires r.VSSPolynomials[msg.From] != nil && expok(r.VSSPolynomials[msg.From])
 //@   ensures[C03,C02] result == nil ==> (r.ShareReceived[msg.From] != nil && act(scval(r.ShareReceived[msg.From]), gen()) == evalpt(r.VSSPolynomials[msg.From], idsc(r.Helper.info.SelfID)))
 
